@@ -104,6 +104,9 @@ def run(ctx):
                         a.pop('freq', None); a.pop('periodicity', None); a.pop('periodicity_duration', None)
         sp['opts']['prelude'] = [p]
     specs += seq
+    # plants / CHP units with fuel: which binary variables exist depends on several parameters (start costs, run times, start fuel,
+    # consumption when on); c, l, u, rows and mapping must agree on them
+    specs += gen.gen_many_plants(ctx.seed, n // 3, dict(CFG, freqs=['h'], units=['h'], tzs=[None], T=(4, 8), p_unaligned_end=0.0, p_fuel=0.9, p_profile=0.2, p_gap=0.0, p_cap_dict=0.0), 'c07p_')
     for sp in specs:
         sp['opts']['no_solve'] = True
     # split set-up: every interval problem and the joint mapping must be as faithful as a single problem
